@@ -116,6 +116,49 @@ func (s msmSpec) build() (*ref.MSMHeader, []ref.MSMSat, []ref.MSMSig) {
 // decodeAndCompare decodes frame with the right decoder and compares every
 // exported field with the encoder input; "" means identical.
 func decodeAndCompare(frame []byte, h *ref.MSMHeader, sats []ref.MSMSat, sigs []ref.MSMSig) string {
+	msg, d := decodeMSM(frame, h.Type)
+	if d != "" {
+		return d
+	}
+	return compareMSM(msg, h, sats, sigs)
+}
+
+// decodeMSM decodes a frame with the decoder of its family and returns the
+// message object (*msm4.Message or *msm7.Message).
+func decodeMSM(frame []byte, msgType int) (msg interface{}, fault string) {
+	var err error
+	cl, site, p := guard(func() {
+		if ref.IsMSM7(msgType) {
+			var m *msm7.Message
+			m, err = msm7.GetMessage(frame, slog.LevelInfo)
+			if m != nil {
+				msg = m
+			}
+		} else {
+			var m *msm4.Message
+			m, err = msm4.GetMessage(frame, slog.LevelInfo)
+			if m != nil {
+				msg = m
+			}
+		}
+	})
+	if p {
+		return nil, "PANIC " + cl + "@" + site
+	}
+	if err != nil || msg == nil {
+		return nil, "REJECTED " + fmt.Sprint(err)
+	}
+	return msg, ""
+}
+
+// compareMSM reads every exported field of a decoded message (at the time of
+// the call, so it can be repeated later) and compares it with the encoder input.
+func compareMSM(msg interface{}, h *ref.MSMHeader, sats []ref.MSMSat, sigs []ref.MSMSig) (result string) {
+	defer func() {
+		if p := recover(); p != nil {
+			result = "PANIC while reading the decoded message: " + fmt.Sprint(p)
+		}
+	}()
 	m7 := ref.IsMSM7(h.Type)
 	var hd *header.Header
 	type satv struct {
@@ -132,57 +175,41 @@ func decodeAndCompare(frame []byte, h *ref.MSMHeader, sats []ref.MSMSat, sigs []
 	}
 	var gotSats []satv
 	var gotSigs [][]sigv
-	var err error
-	cl, site, p := guard(func() {
-		if m7 {
-			var m *msm7.Message
-			m, err = msm7.GetMessage(frame, slog.LevelInfo)
-			if err != nil {
-				return
-			}
-			hd = m.Header
-			for _, s := range m.Satellites {
-				gotSats = append(gotSats, satv{s.ID, s.RangeWholeMillis, s.ExtendedInfo, s.RangeFractionalMillis, s.PhaseRangeRate})
-			}
-			for _, row := range m.Signals {
-				var r []sigv
-				for _, c := range row {
-					v := sigv{id: c.ID, rd: c.RangeDelta, pd: c.PhaseRangeDelta, lock: c.LockTimeIndicator, cnr: c.CarrierToNoiseRatio, half: c.HalfCycleAmbiguity, rated: c.PhaseRangeRateDelta}
-					if c.Satellite != nil {
-						v.satPtrID = c.Satellite.ID
-					}
-					r = append(r, v)
-				}
-				gotSigs = append(gotSigs, r)
-			}
-		} else {
-			var m *msm4.Message
-			m, err = msm4.GetMessage(frame, slog.LevelInfo)
-			if err != nil {
-				return
-			}
-			hd = m.Header
-			for _, s := range m.Satellites {
-				gotSats = append(gotSats, satv{s.ID, s.RangeWholeMillis, 0, s.RangeFractionalMillis, 0})
-			}
-			for _, row := range m.Signals {
-				var r []sigv
-				for _, c := range row {
-					v := sigv{id: c.ID, rd: c.RangeDelta, pd: c.PhaseRangeDelta, lock: c.LockTimeIndicator, cnr: c.CarrierToNoiseRatio, half: c.HalfCycleAmbiguity}
-					if c.Satellite != nil {
-						v.satPtrID = c.Satellite.ID
-					}
-					r = append(r, v)
-				}
-				gotSigs = append(gotSigs, r)
-			}
+	switch m := msg.(type) {
+	case *msm7.Message:
+		hd = m.Header
+		for _, s := range m.Satellites {
+			gotSats = append(gotSats, satv{s.ID, s.RangeWholeMillis, s.ExtendedInfo, s.RangeFractionalMillis, s.PhaseRangeRate})
 		}
-	})
-	if p {
-		return "PANIC " + cl + "@" + site
-	}
-	if err != nil {
-		return "REJECTED " + err.Error()
+		for _, row := range m.Signals {
+			var r []sigv
+			for _, c := range row {
+				v := sigv{id: c.ID, rd: c.RangeDelta, pd: c.PhaseRangeDelta, lock: c.LockTimeIndicator, cnr: c.CarrierToNoiseRatio, half: c.HalfCycleAmbiguity, rated: c.PhaseRangeRateDelta}
+				if c.Satellite != nil {
+					v.satPtrID = c.Satellite.ID
+				}
+				r = append(r, v)
+			}
+			gotSigs = append(gotSigs, r)
+		}
+	case *msm4.Message:
+		hd = m.Header
+		for _, s := range m.Satellites {
+			gotSats = append(gotSats, satv{s.ID, s.RangeWholeMillis, 0, s.RangeFractionalMillis, 0})
+		}
+		for _, row := range m.Signals {
+			var r []sigv
+			for _, c := range row {
+				v := sigv{id: c.ID, rd: c.RangeDelta, pd: c.PhaseRangeDelta, lock: c.LockTimeIndicator, cnr: c.CarrierToNoiseRatio, half: c.HalfCycleAmbiguity}
+				if c.Satellite != nil {
+					v.satPtrID = c.Satellite.ID
+				}
+				r = append(r, v)
+			}
+			gotSigs = append(gotSigs, r)
+		}
+	default:
+		return "REJECTED no message"
 	}
 	// header
 	ncell := h.NCell()
@@ -401,6 +428,11 @@ func C04(r *ev.Run) {
 	parallelFor(len(jobs), func(ji int) {
 		jb := jobs[ji]
 		var n int64
+		var prevMsg interface{}
+		var prevH *ref.MSMHeader
+		var prevSats []ref.MSMSat
+		var prevSigs []ref.MSMSig
+		var prevSpec msmSpec
 		for _, val := range values {
 			for si, sc := range []string{"zero", "max", "alt"} {
 				if si > 0 && val != "counter" {
@@ -422,7 +454,22 @@ func C04(r *ev.Run) {
 						}
 						spec.Pad = pad
 						frame := ref.MSMFrame(h, sats, sigs, pad)
-						d := decodeAndCompare(frame, h, sats, sigs)
+						msgNow, d := decodeMSM(frame, h.Type)
+						if d == "" {
+							d = compareMSM(msgNow, h, sats, sigs)
+						}
+						// the message decoded just before must be untouched by this decode
+						if prevMsg != nil {
+							if dp := compareMSM(prevMsg, prevH, prevSats, prevSigs); dp != "" {
+								r.Violate(ev.Violation{Fingerprint: "C04 earlier-decoded-message-changed-by-a-later-decode", What: "after decoding another message: " + dp,
+									Case: map[string]interface{}{"spec": prevSpec, "then_decoded": spec}, ReplayKind: "msm-frame"})
+							}
+						}
+						if d == "" {
+							prevMsg, prevH, prevSats, prevSigs, prevSpec = msgNow, h, sats, sigs, spec
+						} else {
+							prevMsg = nil
+						}
 						n++
 						if h.NCell() > 0 {
 							r.Distinct(string(frame))
